@@ -107,6 +107,7 @@ func checkC06(c *Ctx) {
 	duplexStress(c, "C06")
 	alternatingReads(c, "C06")
 	gatedDecrypt(c, "C06")
+	failingSource(c, "C06")
 	sourceReuse(c, "C06")
 	c03Rekey(c)    // a second pair-verify on an encrypted connection (reads and writes change keys at the right moment)
 	c03Handover(c) // reads that are waiting while the first cryptographer is negotiated
@@ -217,6 +218,15 @@ func checkC06(c *Ctx) {
 					rd, planned, rec := c06Reader(r, m)
 					enc, err := hcEncrypt(sender, rd)
 					in := map[string]interface{}{"role": cs.role, "start_counter": start, "message": mi, "reader": m.mode, "payload": hx(m.payload)}
+					if m.mode == "bursts-err" {
+						// a source that fails behind its last burst (F70): the error is returned, nothing is sealed, no frame is
+						// counted — the messages around it are encrypted as if this call had not happened
+						if err == nil {
+							c.Violate("Encrypt reports no error although its source failed (what the source delivered before is sealed and sent as if it were the whole message)", cs.id, in, "the error of the source, nothing sealed", "nil error")
+							return
+						}
+						continue
+					}
 					if err != nil {
 						c.Violate("Encrypt returns an error for a well-behaved reader", cs.id, in, "nil", err.Error())
 						return
@@ -226,7 +236,8 @@ func checkC06(c *Ctx) {
 					if rec != nil {
 						bursts = rec.bursts
 					}
-					if mi > 0 {
+					_ = mi
+					if len(p.enc) > 1 {
 						encToks = append(encToks, " /")
 					}
 					encToks = append(encToks, burstTokens(bursts))
@@ -297,7 +308,7 @@ func checkC06(c *Ctx) {
 				c.Hist("reader:" + m.mode)
 				c.Hist("len:" + lenBucket(len(m.payload)))
 			}
-			if cs.useModel {
+			if cs.useModel && len(p.enc) > 0 { // (a case whose only message came from a failing source sealed nothing)
 				lines = append(lines, p.encLine)
 				if total <= 6000 {
 					p.decLine = fmt.Sprintf("frame dec %d %s | %s", start, strings.Join(tbl, " "), strings.Join(streams, " "))
